@@ -12,7 +12,9 @@
 (*   trxExpected : number of transactions in all files (-1 = unknown),           *)
 (*   stepsOK : every complete Process call was accepted step by step by          *)
 (*   Trace_PipelineSteps (a behaviour of Pipeline.tla performs exactly the       *)
-(*   logged Work steps in the logged order and ends with the observed result)]   *)
+(*   logged Work steps in the logged order and ends with the observed result),   *)
+(*   loadOK : likewise for the recorded load against Loader.tla                  *)
+(*   (Trace_LoaderSteps), for include trees of up to 10 files]                    *)
 EXTENDS Integers, Sequences, FiniteSets, Json, TLC
 Cases == ndJsonDeserialize("cases.ndjson")
 VARIABLES i, failed
@@ -35,6 +37,7 @@ Why(c) ==
      ELSE IF c.race THEN "data-race"
      ELSE IF badRuns # {} THEN WhyRun(c.runs[CHOOSE n \in badRuns : \A m \in badRuns : n <= m])
      ELSE IF ~c.stepsOK THEN "run-is-not-a-behaviour-of-Pipeline.tla"
+     ELSE IF ~c.loadOK THEN "load-is-not-a-behaviour-of-Loader.tla"
      ELSE IF anyErr /\ c.exit = 0 THEN "success-although-a-stage-failed"
      ELSE IF c.expectFail /\ c.exit = 0 THEN "success-although-the-input-is-broken"
      ELSE IF c.exit # 0 /\ c.ctxErr THEN "reported-context-canceled-instead-of-the-stage-error"
